@@ -67,8 +67,8 @@ theorem pushLoop_idle (s : State) (t : Token) (c : ConnId) (l : List ReqId) :
 @[simp] theorem startDial_cfg (s : State) (r : ReqId) : (startDial s r).cfg = s.cfg := by
   unfold startDial; split <;> rfl
 
-@[simp] theorem newConn_idle (s : State) (c : Checkout) (a : Bool) : (newConn s c a).1.idle = s.idle := rfl
-@[simp] theorem newConn_cfg (s : State) (c : Checkout) (a : Bool) : (newConn s c a).1.cfg = s.cfg := rfl
+@[simp] theorem newConn_idle (s : State) (c : Checkout) (a : Negotiated) : (newConn s c a).1.idle = s.idle := rfl
+@[simp] theorem newConn_cfg (s : State) (c : Checkout) (a : Negotiated) : (newConn s c a).1.cfg = s.cfg := rfl
 
 @[simp] theorem clearMarker_idle (s : State) (t : Token) (c : ConnId) : (clearMarker s t c).idle = s.idle := by
   unfold clearMarker; split <;> rfl
